@@ -391,6 +391,9 @@ def c18_cfgs(tier):
             # a frame call that fails (buffer too small), then re-configure and restart: the count restarts, one streamer only
             cfg('c18', 'D2', trigger=0, frames=2, ctl='w', failfirst=1), cfg('c18', 'D2', trigger=0, frames=2, ctl='ws', failfirst=1), cfg('c18', 'D2', trigger=1, frames=2, ctl='tw', failfirst=1, ctl2='tws'),
             cfg('c18', 'D1', trigger=0, frames=3, ctl='www', failfirst=1, ctl2='wwws'), cfg('c18', 'D2', trigger=0, frames=2, ctl='www', failfirst=1, ctl2='wws'),
+            # a long first run, then a restart: the count starts over whatever the new streamer thread reads first
+            cfg('c18', 'D2', trigger=0, frames=3, ctl='wwws', ctl2='ws'), cfg('c18', 'D2', trigger=0, frames=4, ctl='wwwws', ctl2='s'), cfg('c18', 1, trigger=0, frames=3, ctl='wwws', ctl2='ws'),
+            cfg('c18', 'D2', trigger=1, frames=3, ctl='twtwtws', ctl2='tws'),
             # the software trigger switched on by a live set, long after / right after a trigger that was fired while it was off
             cfg('c18', 'D2', trigger=0, frames=6, ctl='twwwEwww', restart=0), cfg('c18', 1, trigger=0, frames=6, ctl='twwwEwww', restart=0), cfg('c18', 'D2', trigger=0, frames=6, ctl='wtEwwtww', restart=0),
             # three preemptions on the shortest triggered scenarios (a wake-up lost between the streamer's check and its wait needs three)
